@@ -109,14 +109,14 @@ def _unescape_tla(s):
 
 
 import itertools
-_TLC_SEQ = itertools.count(1)
+TLC_SEQ = itertools.count(1)
 
 
 def tlc(ctx, module, cfg=None, workers=1, trace=None, env=None, timeout=3600, simulate=None, depth=None,
         extra=None, mode="trace"):
     """Run TLC on spec/<module>.tla.  Returns dict(stdout, generated, distinct, viol[list], tagged{tag:[json]}, ok)."""
     # unique per call: several threads start TLC on the same module in the same millisecond (warm.py, chunked replays)
-    meta = ctx.path("tlc-%s-%d-%d" % (module, os.getpid(), next(_TLC_SEQ)))
+    meta = ctx.path("tlc-%s-%d-%d" % (module, os.getpid(), next(TLC_SEQ)))
     cmd = ["tlc", "-workers", str(workers), "-metadir", meta, "-cleanup", "-noGenerateSpecTE",
            "-config", cfg if (cfg and os.path.isabs(cfg)) else os.path.join(SPEC, (cfg or module) + ".cfg")]
     if simulate:
